@@ -328,3 +328,43 @@ silent("ok-c14-has-explicit-if", "C14", V + "rules/overlapping_fields_can_be_mer
        "        if are_mutually_exclusive:\n            return True\n        return are_mutually_exclusive == result")
 silent("ok-c05-else-explicit-termination", "C05", E + "incremental/incremental_publisher.py",
        "        else:  # WorkQueueTerminationEvent\n            context.has_next = False", "        elif isinstance(event, WorkQueueTerminationEvent):\n            context.has_next = False")
+
+# -- round-2 rules ------------------------------------------------------------------------------
+U = "src/graphql/utilities/"
+v("c01-unfix-row-size", "C01", "ROW-ALLOC", "src/graphql/pyutils/suggestion_list.py",
+  "row_size = len(self._input_list) + 1", "row_size = len(input_) + 1")
+v("c01-unfix-union-fields", "C01", "SUPPRESSED-ATTR", V + "rules/stream_directive_on_list_field.py",
+  'for name, field in getattr(parent_type, "fields", {}).items()', "for name, field in parent_type.fields.items()  # type: ignore")
+v("c01-next-without-handler", "C01", "NEXT-TOTAL", V + "rules/defer_stream_directive_label.py",
+  "        except StopIteration:\n            return\n", "        except KeyError:\n            return\n")
+v("c01-index-after-weaker-test", "C01", "INDEX-GUARD", U + "coerce_input_value.py",
+  "if defined_field_count != 1 or len(keys) != 1:", "if defined_field_count != 1 or len(keys) > 1:")
+v("c02-undefined-by-equality", "C02", "SENTINEL-IDENTITY", E + "values.py",
+  "if coerced_value is Undefined:", "if coerced_value == Undefined:")
+v("c12-mutable-default", "C12", "MUTABLE-DEFAULT", V + "rules/max_introspection_depth_rule.py",
+  "def _check_depth(self, node: Node, depth: int = 0) -> bool:", "def _check_depth(self, node: Node, depth: int = 0, seen: dict = {}) -> bool:")
+v("c18-swapped-options", "C18", "ARG-NAME-MATCH", U + "introspection_from_schema.py",
+  "            experimental_directive_deprecation,\n            one_of,\n", "            one_of,\n            experimental_directive_deprecation,\n")
+v("c08-parser-order", "C08", "ORDER-AGREE", L + "parser.py",
+  "        interfaces = self.parse_implements_interfaces()\n        directives = self.parse_const_directives()\n        fields = self.parse_fields_definition()\n        return ObjectTypeDefinitionNode(",
+  "        directives = self.parse_const_directives()\n        interfaces = self.parse_implements_interfaces()\n        fields = self.parse_fields_definition()\n        return ObjectTypeDefinitionNode(")
+v("c11-keys-order", "C11", "ORDER-AGREE", L + "ast.py",
+  '    "field": ("alias", "name", "arguments", "directives", "selection_set"),', '    "field": ("alias", "name", "directives", "arguments", "selection_set"),')
+v("c14-leaf-and", "C14", "KIND-TABLE", V + "rules/overlapping_fields_can_be_merged.py",
+  "    if is_leaf_type(type1) or is_leaf_type(type2):\n        return type1 is not type2\n    return False",
+  "    if is_leaf_type(type1) and is_leaf_type(type2):\n        return type1 is not type2\n    return False")
+v("c20-subtype-nonnull-swapped", "C20", "KIND-TABLE", U + "type_comparators.py",
+  "        return is_type_sub_type_of(schema, maybe_subtype.of_type, super_type)\n", "        return is_type_sub_type_of(schema, maybe_subtype, super_type)\n")
+v("c07-anext-on-iterable", "C07", "TYPE-WITNESS", E + "executor.py",
+  "return with_abort_signal(iterator.__anext__())", "return with_abort_signal(anext(iterable))")
+silent("ok-c14-leaf-nested-ifs", "C14", V + "rules/overlapping_fields_can_be_merged.py",
+       "    if is_leaf_type(type1) or is_leaf_type(type2):\n        return type1 is not type2\n    return False",
+       "    if is_leaf_type(type1):\n        return type1 is not type2\n    if is_leaf_type(type2):\n        return type1 is not type2\n    return False")
+silent("ok-c20-subtype-merged-return", "C20", U + "type_comparators.py",
+       "    if is_list_type(maybe_subtype):\n        # If super_type is not a list, maybe_subtype must also be not a list.\n        return False\n",
+       "    if is_list_type(maybe_subtype):\n        result = False\n        return result\n")
+silent("ok-c01-index-len-ge", "C01", U + "coerce_input_value.py",
+       "if defined_field_count != 1 or len(keys) != 1:", "if defined_field_count != 1 or not len(keys) == 1:")
+silent("ok-c03-counter-else", "C03", E + "executor.py",
+       "                ):\n                    append_awaitable(index)\n\n                index += 1\n        except Exception:\n            if early_return is not None:",
+       "                ):\n                    append_awaitable(index)\n                else:\n                    pass\n\n                index += 1\n        except Exception:\n            if early_return is not None:")
